@@ -181,8 +181,43 @@ class Injected(Exception):
     pass
 
 
+class _mem_fault(object):
+    """Allocation fault: while active, a request for more than `limit` rows of solution storage raises MemoryError (the library is
+    expected to fall back to small blocks and carry on).  Patches the one allocator desolver.differential_system uses."""
+    def __init__(self, limit):
+        self.limit = limit
+        self.hits = 0
+
+    def __enter__(self):
+        if self.limit is None:
+            return self
+        import desolver.differential_system as ds
+        self.mod = ds.D.ar_numpy
+        self.orig = self.mod.zeros
+
+        def zeros(shape, *a, **k):
+            if isinstance(shape, tuple) and shape and isinstance(shape[0], (int, np.integer)) and shape[0] > self.limit:
+                self.hits += 1
+                raise MemoryError("injected allocation failure (%d rows)" % shape[0])
+            return self.orig(shape, *a, **k)
+        self.mod.zeros = zeros
+        return self
+
+    def __exit__(self, *exc):
+        if self.limit is not None:
+            self.mod.zeros = self.orig
+        return False
+
+
 def run(sc, detail_rhs=False, keep_system=False):
     """Execute the scenario; returns (log, api) where api is a list of API level results."""
+    with _mem_fault(sc.get("memfault")) as mf:
+        out = _run(sc, detail_rhs, keep_system)
+        out[0].mem_faults = mf.hits
+        return out
+
+
+def _run(sc, detail_rhs=False, keep_system=False):
     dt = np.dtype(sc.get("dtype", "float64"))
     f = problem(sc.get("problem", "osc"), dt)
     y0 = np.array(sc["y0"], dtype=dt)
@@ -315,6 +350,30 @@ def _err_info(e):
     return {"type": type(e).__name__, "chain": chain}
 
 
+def _events_dict_ok(system):
+    """The per-function view `events_dict` lists exactly the events of the `events` list, grouped by event function, in list order."""
+    try:
+        evs = list(system.events)
+        ed = system.events_dict
+        fns = []
+        for e in evs:
+            if not any(e.event is f for f in fns):
+                fns.append(e.event)
+        if len(ed) != len(fns):
+            return False
+        for f in fns:
+            mine = [e for e in evs if e.event is f]
+            v = ed[f]
+            if v.event is not f or len(v.t) != len(mine):
+                return False
+            for k, e in enumerate(mine):
+                if not (np.array_equal(np.asarray(v.t[k]), np.asarray(e.t)) and np.array_equal(np.asarray(v.y[k]), np.asarray(e.y))):
+                    return False
+        return True
+    except Exception:      # noqa
+        return False
+
+
 def _full_state(system, y0_copy, y0):
     t = np.array(system.t, copy=True)
     lgm = getattr(system._vf_log, "cur_method", None)
@@ -329,7 +388,7 @@ def _full_state(system, y0_copy, y0):
         "nsol": len(sol) if sol is not None else 0,
         "solT": [x for x in (sol.t_eval or [])] if sol is not None else [],
         "solPub": system.sol is not None,
-        "events": [(e.t, e.event) for e in system.events],
+        "events": [(e.t, e.event) for e in system.events], "evDictOk": _events_dict_ok(system),
         "nfev": system.nfev, "njev": system.njev,
         "y0Untouched": bool(np.array_equal(y0, y0_copy)),
         "dtype": str(y.dtype), "tdtype": str(t.dtype),
@@ -562,6 +621,7 @@ def normalise(sc, lg):
                      paired=(fl["lenT"] == fl["lenY"] and len(fl["t"]) == len(fl["y"])), lenT=int(fl["lenT"]),
                      dt=it.r(fl["dt"]), dtm=it.m(fl["dt"]), status=STATUS[fl["status"]], success=fl["success"],
                      nsol=int(fl["nsol"]), solT=[it.r(x) for x in fl["solT"]], solPub=fl["solPub"],
+                     evDictOk=bool(fl.get("evDictOk", True)),
                      evT=[it.r(x) for (x, _) in fl["events"]], evI=[int(getattr(f, "_vf_idx", -1)) for (_, f) in fl["events"]],
                      nfev=int(fl["nfev"]), njev=int(fl["njev"]), y0Untouched=fl["y0Untouched"],
                      dtypeOk=(fl["dtype"] == str(dt) and fl["tdtype"] == str(dt)), finite=fl["finite"],
@@ -579,7 +639,7 @@ def normalise(sc, lg):
             pass
         out.append(o)
     fam = family_of(sc["method"])
-    return {"id": sc["id"], "family": fam, "dense": bool(sc.get("dense", False)),
+    return {"id": sc["id"], "family": fam, "dense": bool(sc.get("dense", False)), "memFaults": int(getattr(lg, "mem_faults", 0) or 0),
             "t0": it.r(np.asarray(sc["t0"], dtype=dt)), "events": out, "expectFail": list(sc.get("expectFail", []))}
 
 
